@@ -2,7 +2,7 @@
 import json
 
 FIX_NONE = {"initChannelAfterCheck": False, "cancelHandshake": False, "msgBoundsCheck": False,
-            "runFailureStops": False, "constsFailureStops": False}
+            "runFailureStops": False, "constsFailureStops": False, "cancelAbortsConstsTask": False}
 
 
 def policy(leader=0, prog="A", out=True, consts=True, typed=True):
